@@ -123,9 +123,10 @@ Record loc := mkLoc {
   l_size : Z;        (* size of the item area (footer excluded when a footer was found) *)
   l_items : Z; l_flags : Z; l_at_start : bool }.
 
-(* __fix_brokenness: while start > 0: seek(-24, 1); read(8) == APETAGEX -> start = that position *)
+(* __fix_brokenness: while start >= 24: seek(-24, 1); read(8) == APETAGEX -> start = that position.
+   (start >= 24 keeps the seek target inside the file, so the IOError branch is dead for both flavours.) *)
 Fixpoint fix_start (fuel : nat) (real : bool) (f : list Z) (start : Z) : result Z :=
-  if start <=? 0 then Ok start else
+  if start <? 24 then Ok start else
   match fuel with
   | O => Raise EOutOfFuel
   | S k =>
@@ -151,26 +152,23 @@ Definition ape_locate (real : bool) (f : list Z) : result (option loc) :=
       let end_ := p + 32 in
       let data := end_ - size in
       let header := if Z.land flags HAS_HEADER =? 0 then data else data - 32 in
+      if size - 32 <? 0 then Raise EMutagen else       (* raise APEBadItemError("invalid tag size") *)
       if header <? 0 then Raise EMutagen else          (* raise APEBadItemError("tag size larger than the file") *)
       match fix_start (S (length f)) real f header with
       | Raise e => Raise e
-      | Ok start =>
-        (* self.tag = fileobj.read(self.size): a buffered real file rejects a length below -1 *)
-        if real && (size - 32 <? -1) then Raise EValue else
-        Ok (Some (mkLoc start header data (Some p) end_ (size - 32) items flags false))
+      | Ok start => Ok (Some (mkLoc start header data (Some p) end_ (size - 32) items flags false))
       end
     | _ =>
       let end_ := 32 + size in
       let footer := if is_marker f (end_ - 32) then Some (end_ - 32) else None in
       let size' := match footer with Some _ => size - 32 | None => size end in
-      if real && (size' <? -1) then Raise EValue else
+      if size' <? 0 then Raise EMutagen else           (* raise APEBadItemError("invalid tag size") *)
       Ok (Some (mkLoc 0 0 32 footer end_ size' items flags true))
     end
   end.
 
-(* fileobj.seek(self.data); self.tag = fileobj.read(self.size)   (read(-k) reads to EOF) *)
-Definition loc_tag (f : list Z) (l : loc) : list Z :=
-  if l_size l <? 0 then zdrop (l_data l) f else rd f (l_data l) (l_size l).
+(* fileobj.seek(self.data); self.tag = fileobj.read(self.size) *)
+Definition loc_tag (f : list Z) (l : loc) : list Z := rd f (l_data l) (l_size l).   (* l_size >= 0 *)
 
 (* delete_bytes(fobj, size, offset) as a pure function (Gen_util.delete_bytes, C11) *)
 Definition del_region (f : list Z) (size offset : Z) : result (list Z) :=
@@ -370,11 +368,10 @@ Fixpoint has_marker (l : list Z) : bool :=
   end.
 
 (* well-formed: the strict reader accepts the file and nothing outside the tag looks like a tag preamble
-   (a file with a second APEv2 tag, a duplicated PyMusepack preamble or a tag at its start is not; the last
-   conjunct matters only for a header-less tag preceded by fewer than 8 bytes) *)
+   (a file with a second APEv2 tag, a duplicated PyMusepack preamble or a tag at its start is not) *)
 Definition ape_wf (f : list Z) : bool :=
   match ape_parse f with
-  | Ok s => negb (has_marker (pbody s ++ ptrailer s)) && ((zlen (pbody s) =? 0) || negb (is_marker f 0))
+  | Ok s => negb (has_marker (pbody s ++ ptrailer s))
   | Raise _ => false
   end.
 
